@@ -183,6 +183,7 @@ func runC04(c *Ctx) {
 	c.c04LinkTestOnCleanPath(fns)
 	c.c04AbsenceOnlyFromLstat(fns)
 	c.c04PatternsHandedDown(fns)
+	c.c04FailuresAreNotOvertaken(fns)
 	c.rule("N14", absentOnlyWhenAbsentText, 3)
 	c.c04AbsentOnlyWhenAbsent("N14", nil)
 	for _, f := range fns {
@@ -1110,5 +1111,93 @@ func (c *Ctx) c04PatternsHandedDown(fns []*ssa.Function) {
 					fname(f)+" receives exclusion patterns and calls "+g.Name()+" without them: everything below that call is removed with no pattern at all — an excluded entry two levels down is deleted together with its ancestors, and the call reports success")
 			})
 		})
+	}
+}
+
+// c04FailuresAreNotOvertaken (N17): "when the call reports success … the tree (for CleanDir, its content) is really gone". The
+// cleaning removes the entries of a directory one after the other. If the loop goes on after an entry could not be removed,
+// the failure has to be kept somewhere: assigned to the variable that the next iteration assigns again, it is overtaken by
+// the success of a later entry, and the caller — which finds the directory not empty and takes that for excluded entries —
+// reports success all the way up. Decided over the removal call graph: where the error of a removal call made in a loop
+// can be non-nil on a path that leads back to the same call (the next iteration), that error is handed to something that
+// keeps it (append, errors.Join, a store into a structure) — looking at its kind is not keeping it.
+func (c *Ctx) c04FailuresAreNotOvertaken(fns []*ssa.Function) {
+	c.rule("N17", "in the loops of the removal call graph, the error of a removal step is either the end of the loop (a return) or kept (appended, joined, stored) before the next iteration: it is never merely overtaken by the outcome of the next entry", 1)
+	inGraph := map[*ssa.Function]bool{}
+	for _, f := range fns {
+		inGraph[f] = true
+	}
+	n := 0
+	for _, f := range fns {
+		if f.Blocks == nil {
+			continue
+		}
+		allInstrs(f, func(in ssa.Instruction) {
+			cl, ok := in.(*ssa.Call)
+			if !ok || !inLoop(cl) {
+				return
+			}
+			g := staticCallee(&cl.Call)
+			if g == nil || !inGraph[g] || !(strings.Contains(strings.ToLower(g.Name()), "remove") || strings.HasPrefix(g.Name(), "Rm") || strings.Contains(g.Name(), "garbageCollect")) {
+				return
+			}
+			es := errResultsOf(cl)
+			if len(es) == 0 {
+				return
+			}
+			e := es[0]
+			n++
+			// can the next iteration be reached with e possibly non-nil?
+			prune := func(b *ssa.BasicBlock, k int) bool {
+				ifi, ok := b.Instrs[len(b.Instrs)-1].(*ssa.If)
+				if !ok {
+					return false
+				}
+				if x, nilSucc, isNil := nilTest(ifi); isNil && sameValue(x, e) {
+					return k == nilSucc // e is nil there: nothing to lose
+				}
+				return false
+			}
+			again := pathPruned(f, cl, func(ssa.Instruction) bool { return false }, func(i ssa.Instruction) bool { return i == ssa.Instruction(cl) }, prune)
+			kept := false
+			if again != nil {
+				seen := map[ssa.Value]bool{}
+				var uses func(v ssa.Value, d int)
+				uses = func(v ssa.Value, d int) {
+					if v == nil || seen[v] || d > 6 || v.Referrers() == nil {
+						return
+					}
+					seen[v] = true
+					for _, r := range *v.Referrers() {
+						switch x := r.(type) {
+						case *ssa.Phi:
+							uses(x, d+1)
+						case *ssa.MakeInterface:
+							uses(x, d+1)
+						case *ssa.Store:
+							if _, isAlloc := x.Addr.(*ssa.Alloc); !isAlloc || x.Val != v {
+								kept = kept || x.Val == v
+							}
+						case *ssa.Call:
+							cn := calleeFull(&x.Call)
+							if bi, isB := x.Call.Value.(*ssa.Builtin); isB && bi.Name() == "append" {
+								kept = true
+							}
+							if cn == "errors.Join" || strings.HasSuffix(cn, "multierror.Append") {
+								kept = true
+							}
+						}
+					}
+				}
+				uses(e, 0)
+			}
+			key := fname(outermost(f)) + "/failure-kept:" + g.Name()
+			c.FuncsSeen[fname(outermost(f))] = true
+			c.check(again == nil || kept, "N17", key, c.ipos(cl), "a failed removal ends the loop, or is kept before the next iteration",
+				"the loop goes on to the next entry with the error of "+g.Name()+" possibly not nil and kept nowhere: the next iteration assigns the variable again, the failure of one entry is overtaken by the success of a later one, CleanDir returns nil with the entry in place, the caller takes the non-empty directory for excluded entries, and Rm() reports success with the tree still there")
+		})
+	}
+	if n == 0 {
+		c.info("N17", "filesystem/no-removal-in-a-loop", "-", "no removal step is made in a loop any more")
 	}
 }
